@@ -9,6 +9,7 @@
 -/
 import DecModel.Ops
 import DecModel.Scan
+import DecModel.ScanNum
 import DecModel.Format
 
 namespace Dec
@@ -155,20 +156,14 @@ def decodeUtf8 : Bytes → Option (List Nat)
         (decodeUtf8 t3).map (((b0 % 8) * 262144 + (b1 % 64) * 4096 + (b2 % 64) * 64 + b3 % 64) :: ·)
       | _ => none
 
-/-- what the code-shaped scanner predicts for a text (`none`: no prediction — more than 100 digits with a
-non-zero digit beyond the 100th, which the numeric phase outside the scanner model handles) -/
+/-- what the code-shaped model of `bid128_from_string` — scanner (`Scan`) followed by the numeric phase (`ScanNum`) —
+predicts for a text: the exact bits and the raised flags, or a panic; `none`: no prediction (not a `&str`).  The
+conversion runs from a clear status word (the repaired wrapper) and ORs its flags into the caller's. -/
 def scanExpect (mode : Mode) (t : Bytes) : Option Expect :=
-  match decodeUtf8 t with
+  match fromStringCodeBits mode t with
   | none => none
-  | some cps =>
-    match scanCP cps with
-    | .nan neg => some (exactly [.d (encode (.nan neg false 0))] 0)
-    | .snan neg => some (exactly [.d (encode (.nan neg true 0))] 0)
-    | .inf neg => some (exactly [.d (encode (.inf neg))] 0)
-    | .zero neg e => some (exactly [.d (encode (zeroAt neg e))] 0)
-    | .number l false => some (exactD (parseLiteralSpec mode l))
-    | .number _ true => none
-    | .panic _ => some (.pred "a panic (the scanner model reaches a panic site)" (fun _ => false) 0)
+  | some none => some (.pred "a panic (the code-shaped model reaches a panic site)" (fun _ => false) 0)
+  | some (some (bits, fl)) => some (exactly [.d bits] fl)
 
 /-- `some why` when the observation is a text conversion and the code-shaped scanner predicts another outcome -/
 def scanDisagrees (o : Obs) : Option String :=
